@@ -7,7 +7,8 @@
 
   ANNOTATIONS (every field type)
   * `declared_type_is_image`      (all field types of every kind): Optional iff nullable, List iff list.
-  * `conditional_makes_optional`  : @skip/@include adds exactly one Optional and a `None` default.
+  * `conditional_makes_optional`  : @skip/@include adds exactly one Optional and a `None` default;
+    `conditional_any_condition`   : for every argument of the directive, literal `true` / `false` included.
   * `leaf_base_exact`             : the base is the SIMPLE_TYPE_MAP image, the enum class, or `Any`
                                     (and `Any` only for unconfigured custom scalars).
   LEAF POSITIONS (all leaf types, all wrapper nestings, all JSON values)
@@ -82,6 +83,26 @@ theorem conditional_makes_optional (a : Ann) (dirs : List Directive) :
   · intro h
     unfold parseDirectives
     simp [h]
+
+/-- … and this for EVERY argument of the directive: the generator looks at the directive's NAME only, so a literal condition
+    (`@skip(if: true)`, `@include(if: false)`) makes the field Optional with default `None` exactly as a variable condition does.
+    (`d.args` is arbitrary.) -/
+theorem conditional_any_condition (a : Ann) (dirs : List Directive) (d : Directive) (hd : d ∈ dirs)
+    (hn : d.name = Tables.skipDirectiveName ∨ d.name = Tables.includeDirectiveName) :
+    (parseDirectives a dirs).2 = true ∧ isNullableAnn (parseDirectives a dirs).1 = true := by
+  have h : hasConditionalDirective dirs = true := by
+    unfold hasConditionalDirective
+    exact List.any_eq_true.mpr ⟨d, hd, by rcases hn with h | h <;> simp [h]⟩
+  unfold parseDirectives
+  simp only [h, if_true]
+  by_cases hna : isNullableAnn a = true
+  · simp [hna]
+  · rw [if_neg hna]; exact ⟨trivial, rfl⟩
+
+/-- non-vacuity: `name @skip(if: true)` on a `String!` field (a literal argument arrives as `("if", none)`, like a variable) -/
+example : (parseDirectives (.name "str") [{ name := "skip", args := [("if", none)] }]).2 = true
+    ∧ isNullableAnn (parseDirectives (.name "str") [{ name := "skip", args := [("if", none)] }]).1 = true :=
+  conditional_any_condition _ _ { name := "skip", args := [("if", none)] } (by simp) (Or.inl (by decide))
 
 /-- The base of a leaf annotation: enum class for enums; `str/int/float/bool` exactly for the five
     built-in scalars (regenerated `SIMPLE_TYPE_MAP`); `Any` for — and only for — other scalars that
